@@ -132,6 +132,10 @@ structure CallHdr (N : Type) where
   swallow : Bool         -- on failure: continue (true) or bubble up with REVERT (false)
   pOk : Nat              -- caller-side cost after a successful call
   pFail : Nat            -- caller-side cost after a failed call (up to and including the REVERT when bubbling)
+  /-- CALLCODE with a value (round 4): `EVM.CallCode` consults `CanTransfer` for the executing account but moves NOTHING
+  (its statement list has the balance check and no `Transfer`, `Gen.C09Dep.progCallCode`), and `opCallCode` has no
+  write-protection test — so such a call is a header with `xfer = none` and `checkOnly = true` -/
+  checkOnly : Bool := false
 
 inductive Prog (N : Type)
   | sstore (c k v : Nat)
@@ -156,8 +160,8 @@ def St.enter (s : St N) (h : CallHdr N) : St N :=
   | some f => s.transfer f
   | none => s
 
-/-- `evm.Call` refuses to start: value attached that the caller cannot pay -/
-def CallHdr.unfunded (h : CallHdr N) (s : N) : Bool := h.xfer.isSome && !h.funded s
+/-- `evm.Call` / `evm.CallCode` refuses to start: value attached that the caller cannot pay -/
+def CallHdr.unfunded (h : CallHdr N) (s : N) : Bool := (h.xfer.isSome || h.checkOnly) && !h.funded s
 
 /-- the evaluator of a callee program (`exec fuel`), abstracted so that `runPre` is not part of the recursion -/
 abbrev Eval (N : Type) := Bool → Nat → List (Prog N) → St N → Outcome × St N × Nat
